@@ -18,7 +18,10 @@ def make_cases(tier, rng):
                 continue
             for how in hows:
                 for _ in range(reps):
-                    cases.append({"name": "cr%d" % len(cases), "point": pt, "proto": pr, "how": how, "jitter_ms": rng.randint(0, 90)})
+                    # a plugin that dies during startup: once with the calls issued at once (they may race with
+                    # the crash), once after the crash has completed (they are after it for sure)
+                    for settle in ([False, True] if pt in ("before_output", "mid_line", "after_line") else [False]):
+                        cases.append({"name": "cr%d" % len(cases), "point": pt, "proto": pr, "how": how, "jitter_ms": rng.randint(0, 90), "settle": settle})
     return cases
 
 
